@@ -13,7 +13,31 @@ MAX_DEPTH = 3
 MAX_BLOCKS = 400
 
 
+def _local_from_impl(facts, ce):
+    """`x.into()` with a crate-local `impl From<A> for B`: the blanket Into impl calls exactly
+    that `from`"""
+    if (ce.get("trait") or "") != "std::convert::Into" or ce.get("name") != "into":
+        return None
+    args = ce.get("args") or []
+    if len(args) != 2:
+        return None
+    idx = getattr(facts, "_from_impls", None)
+    if idx is None:
+        idx = {}
+        for ob in facts.raw_bodies.values():
+            ow = ob.get("owner") or {}
+            if ob["kind"] == "AssocFn" and ob["name"] == "from" and ow.get("trait") == "std::convert::From" and \
+                    len(ow.get("trait_args") or []) == 2:
+                idx[tuple(ow["trait_args"])] = ob
+        facts._from_impls = idx
+    return idx.get((args[1], args[0]))
+
+
 def inlinable_target(facts, ce):
+    if ce is not None and not ce.get("local"):
+        fb = _local_from_impl(facts, ce)
+        if fb is not None:
+            return fb
     if ce is None or not ce.get("local"):
         return None
     if ce.get("kind") not in ("Fn", "AssocFn"):
